@@ -194,6 +194,18 @@ def _check_case(ctx, r, variant):
         out, eol, how = out[len("<!DOCTYPE html>\n"):], "\n", "HTMLDocument(text, tree, number).render()"
         r = gen.TAG("html", gen.TAG("head", gen.TAG("meta", attrs=[["charset", {"t": "str", "s": "utf-8"}]])), gen.TAG("body", lead, r, tail))
         ctx.count("document_variants")
+    elif variant == "document_lone" or (variant is None and r["k"] == "tag" and r["name"] in ("html", "body") and ctx.rng.random() < 0.5):
+        # the tree is the document's ONLY content: a user's <html> is the root (its children stay where they are, a <head> is
+        # created / completed), a user's <body> is the body, anything else is wrapped - the reference assembly of C11 says what to expect
+        from ..ref import document as refdoc
+
+        out = ht.HTMLDocument(tag).render()["html"]
+        if not out.startswith("<!DOCTYPE html>\n"):
+            ctx.violation("root-structure", "document output does not start with the doctype", {"recipe": r, "output": out[:300]})
+            return
+        out, eol, how = out[len("<!DOCTYPE html>\n"):], "\n", "HTMLDocument(tree).render()"
+        r, _deps = refdoc.assemble([r], [], "lib", True)
+        ctx.count("document_variants")
     elif variant is None:
         out, eol, how = render_variants(ctx.rng, tag)
     else:
@@ -389,6 +401,14 @@ def _run(ctx):
         check_case(ctx, gen.TAG("article", gen.TAG("section", *wider["c"][:2600], ws=True), ws=False), (1, "\r\n"))
         for nm in ("body", "html", "head", "div"):
             check_case(ctx, gen.TAG(nm, gen.T("in <%s>" % nm), gen.TAG("p", gen.T("x")), via_fn=False), "document")
+        T_ = gen.T
+        for root in (gen.TAG("html", gen.TAG("body", T_("b")), gen.TAG("head", gen.TAG("title", T_("t")), via_fn=False), via_fn=False, attrs=[["lang", {"t": "str", "s": "fr"}]]),
+                     gen.TAG("html", gen.TAG("x-banner", T_("first")), gen.TAG("head", via_fn=False), gen.TAG("body", T_("b")), via_fn=False),
+                     gen.TAG("html", T_("text first"), gen.TAG("head", gen.TAG("meta", attrs=[["name", {"t": "str", "s": "n"}]]), via_fn=False), gen.TAG("body"), via_fn=False),
+                     gen.TAG("html", gen.TAG("body", T_("only a body")), via_fn=False), gen.TAG("html", via_fn=False), gen.TAG("html", T_("just text"), via_fn=False),
+                     gen.TAG("body", T_("lone body"), gen.TAG("head", T_("a head inside a body")), attrs=[["class", {"t": "str", "s": "b"}]]),
+                     gen.TAG("div", gen.TAG("head", T_("h")), gen.TAG("body", T_("b"))), gen.TAG("head", gen.TAG("title", T_("lone head")), via_fn=False)):
+            check_case(ctx, root, "document_lone")
         many_attrs = gen.TAG("x-many", gen.T("k"), ws=False, via_fn=False,
                              attrs=[["data-a%d" % k, {"t": "str", "s": "v%d\"&" % k} if k % 4 else {"t": "num", "v": k}] for k in range(260)])
         check_case(ctx, many_attrs, (0, "\n"))
